@@ -1084,14 +1084,21 @@ def correspondence(ctx):
     cases = [c for c in corpus_cases() if (c["level"], c["backend"]) != ("engine", "bosonic") or single_segment(c)]
     for level, be, cnt in plan:
         for _ in range(cnt):
-            cases.append(gen_single_segment(rng, be) if (level, be) == ("engine", "bosonic") else gen_history(rng, be, level))
+            if (level, be) == ("engine", "bosonic"):
+                cases.append(gen_single_segment(rng, be))
+            elif level == "api" and rng.random() < 0.15:
+                # lists with a valid entry in front of an invalid one: the phase-space backends stop in the middle (modelled);
+                # the specification — and therefore the recipes that need to know a mode's data — cannot follow that, so plain
+                cases.append(gen_history(rng, be, level, plain=True))
+            else:
+                cases.append(gen_history(rng, be, level, bad_first=(level == "api")))
     # >= 10 live modes (Fock: cutoff 2)
     for level, be, cnt in [("engine", "gaussian", ctx.budget(8, 80)), ("api", "gaussian", ctx.budget(4, 40)),
                            ("api", "bosonic", ctx.budget(4, 40)), ("engine", "bosonic", ctx.budget(4, 40)),
                            ("engine", "fock", ctx.budget(0, 8))]:
         for _ in range(cnt):
             cases.append(gen_single_segment(rng, be, wide=True) if (level, be) == ("engine", "bosonic")
-                         else gen_history(rng, be, level, wide=True, max_ops=rng.choice([6, 10, 14])))
+                         else gen_history(rng, be, level, wide=True, max_ops=rng.choice([6, 10, 14]), bad_first=(level == "api")))
     for be, level in (("gaussian", "engine"), ("bosonic", "api"), ("gaussian", "api"), ("bosonic", "engine")) + ((("fock", "engine"),) if not ctx.quick else ()):
         cases.append(wide_sweep(rng, be, level))
     impls = [run_impl(c) for c in cases]
